@@ -72,7 +72,8 @@ Teardown == /\ IsEv("Teardown")
 (*------------------------- whole-section parses --------------------------*)
 Section == /\ IsEv("Section")
            /\ ri' = l /\ kind' = Rec[l].kind
-           /\ UNCHANGED <<rvars, di>>
+           /\ hs' = InitHs(Rec[l].buf, 1) /\ res' = OkUnit
+           /\ UNCHANGED <<buf, le, di>>
 (* a reader handed back by a parser is a zero-copy view of the section *)
 View == /\ IsEv("View")
         /\ LET r == Rec[l] IN
